@@ -6,7 +6,8 @@ the regularisation `R`.  The disk (`_load_bs` / `_save_bs`) is outside this mach
 both deliver "the basis for `k`".
 
 `ok k r` says whether the regularisation request `r` can be honoured for basis `k` (wrong format, unknown name, SVD factor > 1,
-`'pos'` with odd orders > 1 raise `ValueError` in the code).
+`'pos'` with odd orders > 1 raise `ValueError` in the code); `noreg r` says that `r` asks for no regularisation: `None`, or — since repair F61 —
+zero strength of a parameterised regulariser (those requests build and use the unmasked inverse matrices `_tri_full`).
 -/
 namespace PyAbel.RbxCache
 
@@ -36,7 +37,7 @@ inductive Out (K V R : Type)
   | raise
 
 /-- one call of `get_bs_cached`, statement by statement -/
-def call (ok : K → R → Bool) (rnone : R) (s : St K V R) (q : Req K V R) : St K V R × Out K V R :=
+def call (ok : K → R → Bool) (noreg : R → Bool) (s : St K V R) (q : Req K V R) : St K V R × Out K V R :=
   -- `if _bs is None or _bs_prm != prm:` load or compute the basis, reset the transforms
   let s1 : St K V R :=
     if s.bsPrm = some q.k then s
@@ -61,7 +62,7 @@ def call (ok : K → R → Bool) (rnone : R) (s : St K V R) (q : Req K V R) : St
       -- `_tri_prm = None  # (invalid until the new matrices are ready)`
       let s3 : St K V R := { s2 with triPrm := none }
       if ok q.k q.reg then
-        let s4 : St K V R := if q.reg = rnone then { s3 with triFull := some q.k } else s3
+        let s4 : St K V R := if noreg q.reg then { s3 with triFull := some q.k } else s3
         ({ s4 with tri := some (q.k, q.v, q.reg), triPrm := some q.reg }, .inv (q.k, q.v, q.reg))
       else (s3, .raise)
 
@@ -79,11 +80,11 @@ inductive Op (K V R : Type)
   | call (q : Req K V R)
   | cleanup (sel : Select)
 
-def step (ok : K → R → Bool) (rnone : R) (s : St K V R) : Op K V R → St K V R
-  | .call q => (call ok rnone s q).1
+def step (ok : K → R → Bool) (noreg : R → Bool) (s : St K V R) : Op K V R → St K V R
+  | .call q => (call ok noreg s q).1
   | .cleanup sel => cleanup s sel
 
-def run (ok : K → R → Bool) (rnone : R) (s : St K V R) (ops : List (Op K V R)) : St K V R :=
-  ops.foldl (step ok rnone) s
+def run (ok : K → R → Bool) (noreg : R → Bool) (s : St K V R) (ops : List (Op K V R)) : St K V R :=
+  ops.foldl (step ok noreg) s
 
 end PyAbel.RbxCache
